@@ -55,15 +55,32 @@ package index
 //   8 <= width <= 2^25  and  len * width <= len(index)
 
 //@ func (*singleWidthIndex).Less
+//@   let cmp := call[bytes.Compare#0]
+//@   call[bytes.Compare#0] assert key_against_digest_of_record_i [C03,C07]: ref(arg0) == ref(digest)
+//@   ensures key_is_not_after_record_i [C03,C07]: result == (cmp <= 0)
 //@   requires bucket [C03,C09]: 8 <= s.width && s.width <= 33554432 && s.len * s.width <= len(s.index)
 //@   requires in_range [C03,C09]: 0 <= i && i < s.len
 
 //@ func (*singleWidthIndex).getAll
 //@   requires bucket [C03,C09]: 8 <= s.width && s.width <= 33554432 && s.len * s.width <= len(s.index) && s.len <= 281474976710656
 //@   loop[0] invariant cursor [C03,C09]: 0 <= idx && idx <= s.len
+//@   let start := call[sort.Search#0]
+//@   let same := call[bytes.Equal#0]
+//@   let off := call[littleEndian.Uint64#0]
+//@   let more := call[dynamic#0]
+//@   call[sort.Search#0] assert over_all_records [C03,C07]: arg0 == s.len
+//@   loop[0] invariant scan_starts_at_the_lower_bound [C03,C07]: idx >= start
+//@   call[bytes.Equal#0] assert compares_the_key_with_record_idx [C03,C07]: ref(arg0) == ref(d) && ref(arg1) == subref(ref(s.index), digestStart) && digestStart == idx * s.width
+//@   call[littleEndian.Uint64#0] assert offset_field_of_that_record [C03,C07]: ref(arg1) == subref(ref(s.index), digestEnd) && digestEnd == (idx + 1) * s.width - 8
+//@   call[dynamic#0] assert yields_that_offset [C03,C07]: arg0 == off && same
+//@   loop[0] step next_record_only_after_a_match_the_caller_wants_more_of [C03,C07]: same && more && idx == athead(0, idx) + 1
+//@   ensures notfound_iff_nothing_matched [C03,C07]: (err == ErrNotFound) == !cur(any) && (err == nil) == cur(any)
 //@   closure[0]
 //@     requires bucket [C03,C09]: 8 <= s.width && s.width <= 33554432 && s.len * s.width <= len(s.index)
 //@     assume search_protocol: 0 <= i && i < s.len
+//@     let less := call[singleWidthIndex.Less#0]
+//@     call[singleWidthIndex.Less#0] assert probes_record_i_with_the_key [C03,C07]: ref(arg0) == ref(s) && arg1 == i && ref(arg2) == ref(d)
+//@     ensures is_the_lower_bound_predicate [C03,C07]: result == less
 //@     note sort.Search calls its predicate only on indices in [0, n) with n == int(s.len)
 //@   end
 
